@@ -632,7 +632,8 @@ func runC11(c *Check) {
 			c.Ob("R11.6", "set index: running row index", rowPhi != nil, p.Pos(g.Pos()), "derives from a row counter advanced by exactly one per walked row")
 			if rowPhi != nil {
 				// initial value: from the search loop over RowRoots with IsOutsideRange
-				init := backSlice(rowPhi, SliceOpt{PhiControl: true, CallArgs: true})
+				// the search may live in a helper (firstRowWithNamespace-style): look into callees
+				init := backSlice(rowPhi, SliceOpt{PhiControl: true, CallArgs: true, CalleeDepth: 2, P: p})
 				c.Ob("R11.6", "row index starts at the first row with the namespace", init.Has(func(x ssa.Value) bool {
 					k, ok := x.(*ssa.Call)
 					return ok && calleeObj(&k.Call) != nil && calleeObj(&k.Call).Name() == "IsOutsideRange"
